@@ -31,16 +31,17 @@ type Mem struct {
 	DoLog  bool
 	OOR    int    // accesses with address >= 1<<24
 	OORAdr uint32 // first such address
-	// accesses that the bus delivered to the handler of another address window (see cpu.go: the flat memory is
-	// attached as three windows so that an access routed with the wrong segment's handler shows)
-	Mis                  int
-	MisAdr, MisLo, MisHi uint32
+	// accesses that the bus delivered to the handler of another 16-byte segment (see cpu.go: the flat memory is attached
+	// with 16 handlers chosen by the digits of the segment number)
+	Mis       int
+	MisAdr    uint32
+	MisParity uint32
 }
 
-// Misrouted records an access at a that arrived at the handler attached over [lo, hi].
-func (m *Mem) Misrouted(a, lo, hi uint32) {
+// Misrouted records an access at a that arrived at the handler of another class of segments.
+func (m *Mem) Misrouted(a, parity uint32) {
 	if m.Mis == 0 {
-		m.MisAdr, m.MisLo, m.MisHi = a, lo, hi
+		m.MisAdr, m.MisParity = a, parity
 	}
 	m.Mis++
 }
@@ -51,7 +52,7 @@ func (m *Mem) BusFault() string {
 	case m.OOR > 0:
 		return fmt.Sprintf("issued a bus access at $%X, outside the 24-bit address space", m.OORAdr)
 	case m.Mis > 0:
-		return fmt.Sprintf("made an access to $%06X through the bus handler attached over $%06X-$%06X (the access was routed by another address than the one it carries)", m.MisAdr, m.MisLo, m.MisHi)
+		return fmt.Sprintf("made an access to $%06X through the bus handler of another 16-byte segment (the access was routed by another address than the one it carries)", m.MisAdr)
 	}
 	return ""
 }
